@@ -30,4 +30,6 @@ run L2 HashSet.h "				indexCode = bucketIndex;
 # N1: Open2N2 probing with constant step 2 (visits half of the buckets: 'table full' although buckets are free) -- breaks next_pidx and with it the
 # no-exception theorems of NoExn.v
 run N1 details/HashBucketOpen2N2.h "			return (bucketIndex + probe) & (bucketCount - 1);	// quadratic probing" "			return (bucketIndex + 2) & (bucketCount - 1);	// quadratic probing"
+# P1: BucketBase (LimP4, One) linear probing with step 2: only half of the buckets are probed -- breaks next_lidx and with it the LimP4 no-exception theorems
+run P1 details/BucketUtility.h "			return (bucketIndex + 1) & (bucketCount - 1);	// linear probing" "			return (bucketIndex + 2) & (bucketCount - 1);	// linear probing"
 python3 /verif/props/C12/regen_clean.py   # leave the clean translation in the shared coq directory
